@@ -426,6 +426,18 @@ class Connection(object):
             debug_msg = 'Recieved {} seq {} and a related request callback did not exist'
             self._config["logger"].debug(debug_msg.format(msg, seq))
 
+    def _deliver_response(self, msg, seq, is_exc, decode, args):  # dispatch
+        try:
+            obj = decode(args)
+        except EOFError:
+            raise
+        except Exception:
+            # the payload of this response cannot be decoded here (an exception class that cannot be rebuilt,
+            # a reference this side no longer knows, ...): the request still gets its answer - that failure -
+            # instead of the error leaving serve() at whoever happens to be serving
+            is_exc, obj = True, sys.exc_info()[1]
+        self._seq_request_callback(msg, seq, is_exc, obj)
+
     def _dispatch(self, data):  # serving---dispatch?
         msg, seq, args = brine.load(data)
         if msg == consts.MSG_REQUEST:
@@ -436,11 +448,9 @@ class Connection(object):
                 self.close()
                 raise
         elif msg == consts.MSG_REPLY:
-            obj = self._unbox(args)
-            self._seq_request_callback(msg, seq, False, obj)
+            self._deliver_response(msg, seq, False, self._unbox, args)
         elif msg == consts.MSG_EXCEPTION:
-            obj = self._unbox_exc(args)
-            self._seq_request_callback(msg, seq, True, obj)
+            self._deliver_response(msg, seq, True, self._unbox_exc, args)
         else:
             raise ValueError("invalid message type: %r" % (msg,))
 
